@@ -28,6 +28,9 @@ type VerifEvent = verifhook.Event
 // VerifSetNote installs the simulator's observer callback.
 func VerifSetNote(f func(site string, v any)) { verifhook.SetNote(f) }
 
+// VerifSetOrder installs the callback that decides the order in which the gatherer walks its set of networks.
+func VerifSetOrder(f func(site string, keys []string)) { verifhook.SetOrder(f) }
+
 type verifSeededRand struct {
 	mu sync.Mutex
 	r  *rand.Rand
